@@ -7,7 +7,7 @@ simulation) for a behaviour that violates a model-level property; the schedule o
 sequence of API calls that breaks the property on any implementation lacking the guard. The attacks are stored in
 generated/attacks.json (they depend on the specification only) and every trace-based check executes all of them on the real
 code: on the unchanged tree they fail (the guard is there, no formula fails); on a tree where a change removed or bypassed the
-guard the property's formula fails on the real trace.   usage: tools_attacks.py [node|net|all]"""
+guard the property's formula fails on the real trace.   usage: tools_attacks.py [node|net|skel|all]"""
 import json, os, sys, shutil, time
 from concurrent.futures import ThreadPoolExecutor
 sys.path.insert(0, os.path.dirname(os.path.abspath(__file__)))
@@ -102,6 +102,38 @@ def net_attacks(wd, num=300000, cap=420):
             out += f
     return out
 
+# Attack SKELETONS (spec/MC_Net.tla, constant Skel): hand-designed abstract step sequences - who starts, whose timer fires, who is
+# given which kind of payload from whom - for forks that random simulation of the weakened closed model does not find (they are
+# 20 - 30 steps deep and need two cooperating weakenings).  TLC turns a skeleton into a concrete schedule on the WEAKENED model
+# (it must end in a fork) and confirms that the faithful model cannot follow it to a fork.  N = 4, H = 2: primary of view 0 is
+# validator 2, of view 1 validator 1; validator 3 is Byzantine; validator 0 is the one that signs twice.
+SK_HEAD = [(0, 'Start'), (1, 'Start'), (2, 'Start'),
+           (1, 'TO'), (0, 'RecoveryRequest', 1, 0),                      # 0 has heard 1 (so that its own timeout asks for a view change, not for recovery)
+           (0, 'PrepareResponse', 3, 0, 0), (0, 'TO'), (0, 'PrepareRequest', 2, 0),   # 0 asks for view 1, THEN gets the proposal: responds and commits in view 0 while view-changing
+           (2, 'PrepareResponse', 0, 0), (2, 'PrepareResponse', 3, 0, 0), (2, 'Commit', 0, 0), (2, 'Commit', 3, 0, 0),   # 2 accepts X
+           (1, 'ChangeView', 0, 0), (1, 'ChangeView', 3, 0), (1, 'TO'), (1, 'TO')]    # 1 enters view 1 on the requests of 0, 3 and its own, proposes Y
+SK_TAIL = [(1, 'PrepareResponse', 0, 1), (1, 'PrepareResponse', 3, 1, 0), (1, 'Commit', 0, 1), (1, 'Commit', 3, 1, 0)]   # 1 accepts Y
+SKELETONS = [
+    # the committed node follows the view change it had asked for before committing, and signs again in the new view
+    dict(name='lock-cv-viewchanging', byz=(3,), amev=False, weaken=('no_commit_lock_cv', 'resend_builds_new_commit'),
+         skel=SK_HEAD + [(0, 'ChangeView', 1, 0), (0, 'ChangeView', 3, 0), (0, 'PrepareResponse', 3, 1, 0), (0, 'PrepareRequest', 1, 1)] + SK_TAIL),
+]
+
+def skeleton_attacks(wd):
+    out = []
+    for sk in SKELETONS:
+        res = {}
+        for tag, weaken in (('weakened', sk['weaken']), ('faithful', ())):
+            it = mc.net_cfg('skel-%s-%s' % (sk['name'], tag), byz=sk['byz'], dev=False, amev=sk['amev'], weaken=weaken, invs=('Agreement',), maxview=1, maxsteps=90, skel=sk['skel'])
+            res[tag] = mc.run_tlc(it, wd, workers=2, cap=300)
+        w, f = res['weakened'], res['faithful']
+        ok = w.get('violated') == 'Agreement' and w.get('schedule') and not f.get('violated')
+        print('skeleton', sk['name'], 'weakened:', w.get('violated'), len(w.get('schedule') or []), 'events; faithful model follows it for', f.get('distinct', 0) - 1, 'of', len(sk['skel']), 'steps, fork:', f.get('violated'), flush=True)
+        if ok:
+            out.append({'weaken': '+'.join(sk['weaken']), 'config': 'skeleton ' + sk['name'], 'module': 'MC_Net', 'invariant': 'Agreement', 'property': 'C01',
+                        'events': len(w['schedule']), 'schedule': w['schedule'], 'skeleton': sk['skel'], 'faithful_model_follows_steps': f.get('distinct', 0) - 1})
+    return out
+
 if __name__ == '__main__':
     what = sys.argv[1] if len(sys.argv) > 1 else 'all'
     wd = vlib.workdir('attacks')
@@ -114,7 +146,10 @@ if __name__ == '__main__':
             old = [a for a in old if a['module'] != 'MC_Node']
         if what in ('net', 'all'):
             new += net_attacks(wd)
-            old = [a for a in old if a['module'] != 'MC_Net']
+            old = [a for a in old if a['module'] != 'MC_Net' or a.get('skeleton')]
+        if what in ('skel', 'net', 'all'):
+            new += skeleton_attacks(wd)
+            old = [a for a in old if not a.get('skeleton')]
         os.makedirs(os.path.dirname(path), exist_ok=True)
         json.dump(old + new, open(path, 'w'))
         print('attacks stored:', len(old + new))
